@@ -6,7 +6,7 @@ CONSTANTS SpecNames,   \* sequence of module names of the specification universe
           SpecREs      \* text filters of the universe (<<"-">> = none)
 
 AllFixes  == {"parse_push_order", "enabled_lt", "enabled_default", "empty_name"}
-RepoFixes == {}             \* deviations repaired in /repo (see known_findings.json)
+RepoFixes == {"parse_push_order", "enabled_lt", "enabled_default"}   \* deviations repaired in /repo (see known_findings.json)
 NoWriter  == {[on |-> FALSE, c |-> 0]}
 Ceilings  == {[on |-> TRUE, c |-> c] : c \in {0, 1, 3, 5}}
 NoProgs   == {<<>>}
